@@ -26,6 +26,7 @@ func C17(r *core.Run) {
 	lens := rule172(r, ctx)
 	rule173(r)
 	rule174(r, lens)
+	rule175(r)
 }
 
 func rule171(r *core.Run) {
@@ -625,4 +626,49 @@ func rule174(r *core.Run, lens map[int]bool) {
 		return
 	}
 	r.Violated("R17.4", key("gofakes3.ValidateBucketName", "language equality"), "", sprintf("the validator (pattern %q, accepted lengths, per-label test) and the documented rules disagree on the name %q: validator accepts=%v, rules accept=%v (the IP-address predicate aside)", pat, witness, wImpl, wSpec))
+}
+
+// rule175 — backends do not apply naming rules of their own.
+func rule175(r *core.Run) {
+	r.Rule("R17.5", "no backend's CreateBucket rejects a name on syntactic grounds of its own (the decision is the shared validator's): a return of InvalidBucketName in a CreateBucket is admissible only under the comparison with the backend's internal bookkeeping name, and no CreateBucket tests len(name)")
+	for _, impl := range backendImpls {
+		fn := implMethod(r, impl, "CreateBucket")
+		if fn == nil {
+			continue
+		}
+		np := fn.Params[1]
+		bad := ""
+		for _, f := range core.Closures(fn) {
+			for ret, ev := range returnedErrors(f) {
+				es := r.P.SliceOf(ev, core.SliceOpts{Depth: 2})
+				if !has(errCodes(es), "InvalidBucketName") {
+					continue
+				}
+				for _, g := range core.GuardsOf(ret) {
+					gs := r.P.SliceOf(g.If.Cond, core.SliceOpts{Depth: -1})
+					isMeta := gs.Has("field:s3bolt.Backend.metaBucketName") && gs.Has("call:bytes.Equal")
+					if !isMeta || gs.Has("call:builtin:len") {
+						bad = "InvalidBucketName returned at " + pos(r, ret) + " under a test that is not the bookkeeping-name comparison"
+					}
+				}
+				if len(core.GuardsOf(ret)) == 0 {
+					bad = "unconditional InvalidBucketName at " + pos(r, ret)
+				}
+			}
+			core.Instrs(f, func(in ssa.Instruction) {
+				if iff, ok := in.(*ssa.If); ok {
+					cd := core.CondOf(iff.Cond)
+					for _, v := range []ssa.Value{cd.X, cd.Y} {
+						if v != nil && isLenCall(v) {
+							as := r.P.SliceOf(v.(*ssa.Call).Call.Args[0], core.SliceOpts{Depth: -1})
+							if as.HasValue(np) {
+								bad = "len(name) tested at " + pos(r, iff)
+							}
+						}
+					}
+				}
+			})
+		}
+		r.Check(bad == "", "R17.5", key(fname(r, fn), "no private naming rule"), r.P.Pos(fn.Pos()), "the backend leaves the naming decision to the validator", "the backend applies a naming rule of its own ("+bad+"): the same name is accepted on one backend and refused on another")
+	}
 }
